@@ -1,6 +1,6 @@
 (* C08 - Compiled linear models are well-formed.  Only statements, `exact`, and Print Assumptions. *)
 From Coq Require Import QArith List String Sorting.Sorted.
-From Rooc Require Import Base.XQ Model.Exp Model.Bounds Model.Linearize Proof.WellFormed.
+From Rooc Require Import Base.XQ Model.Exp Model.Bounds Model.Linearize Proof.WellFormed Proof.RowNames.
 Import ListNotations.
 Local Close Scope Q_scope.
 
@@ -27,5 +27,13 @@ Theorem C08_aux_fresh :
       (forall x, In x (map fst aux) -> ~ In x (map fst (m_domain m))).
 Proof. exact compile_aux_fresh. Qed.
 
+(* row names are pairwise distinct, unnamed rows aside: the de-duplication loop of Linearizer::linearize always finds a
+   free `name__k` within its step bound (pigeonhole over the candidates; decimal names of distinct numbers differ) *)
+Theorem C08_row_names_unique :
+  forall (m : model) (L : linmodel), compile m = inr L ->
+    NoDup (map lr_name (filter (fun r => negb (String.eqb (lr_name r) "")) (lm_rows L))).
+Proof. exact compile_row_names_unique. Qed.
+
 Print Assumptions C08_wellformed.
+Print Assumptions C08_row_names_unique.
 Print Assumptions C08_aux_fresh.
